@@ -405,9 +405,10 @@ def main():
     violations, known_lines = [], []
 
     # 1. proof obligations
-    # Props/C03.lean (term semantics, protocol of the shared state, when_all) and Props/C03Life.lean (ownership of
-    # the shared state: no touch after release, destroyed exactly once, pinned split_tuple witness)
-    PROPS = ['C03', 'C03Life']
+    # Props/C03.lean (term semantics, protocol of the shared state, when_all), Props/C03Life.lean (ownership of
+    # the shared state: no touch after release, destroyed exactly once, pinned split_tuple witness) and
+    # Props/C03s.lean (payload locations: every payload is read while its operation state is alive)
+    PROPS = ['C03', 'C03Life', 'C03s']
     ok_build, build_log = lean_build(PROPS)
     audit = {'obligations': 0, 'discharged': 0, 'problems': ['lake build failed'], 'theorems': [],
              'checker_cmd': f'cd {LEAN} && lake build'}
